@@ -14,6 +14,7 @@ RULE = ("(a) WHILE/GOTO-free generated programs whose LOOP bodies assign their o
         "number of iterations actually performed observable in the final variables, which must equal the reference (bound value at entry); "
         "the VM must reach HALT within the bound derived from the reference step count; activation depth is monitored after every instruction "
         "and must stay <= #definitions + 1; the call graph of the emitted code (routines = reachability classes, edges = EXEC) must be acyclic; "
+        "also call chains through 130-300 definitions, 260-520 definitions, LOOP nests 70-260 deep, 260 parameters / locals; "
         "(b) a systematic family of self / forward / mutual references, also through includes and redefinitions, each judged by R4; "
         "non-trivial = (a) >= 1 loop iteration with a bound-modifying body or >= 1 call, (b) every attempt; distinct by SHA-1 of the files")
 ASSUMPTIONS = ["R4 decides which reference attempts are legal (a callee must be completely defined earlier in the text; a redefinition may call the previous definition of its own name)",
@@ -135,6 +136,10 @@ def _work(spec):
             items += attempts(r)
         for text, kind in programs.long_distance_sources(r)[:1]:
             items.append(({"main": text}, "main", "loop"))     # a LOOP whose body is longer than 2^15 instructions
+        for files, main, kind in programs.scale_sources(r, small=spec["reps"] == 1):
+            # call chains through 130-300 definitions, 260-520 definitions, LOOPs nested 70-260 deep, 260 parameters / locals
+            if any(w in kind for w in ("call-chain", "definitions", "loop-nesting", "parameters", "locals")):
+                items.append((files, main, "loop"))
     prepared = []
     for files, main, desc in items:
         f = pipeline.front(files, main)
